@@ -11,6 +11,30 @@ fn usage() -> ! {
     std::process::exit(2)
 }
 
+/// run one stored case under a watchdog: a replay that does not return within RQV_WATCHDOG_S (60 s) makes the
+/// process exit 3 with a HANG-CANDIDATE line naming the file (the check script confirms hangs for C07)
+fn replay_watched(prop: &Property, part_name: &str, case: &Value, known: &[KnownFinding], file: &str) -> Result<Outcome, String> {
+    let limit: u64 = std::env::var("RQV_WATCHDOG_S").ok().and_then(|v| v.parse().ok()).unwrap_or(60);
+    let done = std::sync::Arc::new(std::sync::atomic::AtomicBool::new(false));
+    let d2 = done.clone();
+    let f2 = file.to_string();
+    let pid = prop.id.to_string();
+    std::thread::spawn(move || {
+        let t0 = std::time::Instant::now();
+        while !d2.load(std::sync::atomic::Ordering::Relaxed) {
+            std::thread::sleep(std::time::Duration::from_millis(200));
+            if t0.elapsed().as_secs() >= limit && !d2.load(std::sync::atomic::Ordering::Relaxed) {
+                println!("WATCHDOG property={} committed replay {} running for {} s: inconclusive", pid, f2, limit);
+                println!("HANG-CANDIDATE replay={}", f2);
+                std::process::exit(3);
+            }
+        }
+    });
+    let r = replay_one(prop, part_name, case, known);
+    done.store(true, std::sync::atomic::Ordering::Relaxed);
+    r
+}
+
 fn replay_one(prop: &Property, part_name: &str, case: &Value, known: &[KnownFinding]) -> Result<Outcome, String> {
     let Some(p) = prop.parts.iter().find(|p| p.name() == part_name) else {
         return Err(format!("HARNESS unknown part {}", part_name));
@@ -157,7 +181,7 @@ fn run_property(root: &str, prop: &Property, strict: &Property, others: &[Proper
         }
         let v = load_replay(f);
         replayed += 1;
-        match replay_one(prop, v["part"].as_str().unwrap_or("?"), &v["case"], known) {
+        match replay_watched(prop, v["part"].as_str().unwrap_or("?"), &v["case"], known, f) {
             Ok(_) => {}
             Err(m) if m.starts_with("HARNESS") => {
                 println!("{} (replay {})", m, f);
@@ -181,7 +205,7 @@ fn run_property(root: &str, prop: &Property, strict: &Property, others: &[Proper
             let path = format!("{}/{}", root, w);
             let v = load_replay(&path);
             let sig = k.msg_contains.clone().unwrap_or_default();
-            match replay_one(strict, v["part"].as_str().unwrap_or("?"), &v["case"], &[]) {
+            match replay_watched(strict, v["part"].as_str().unwrap_or("?"), &v["case"], &[], &path) {
                 Ok(_) => println!("note: known finding {} no longer reproduces on this tree (witness {} passes)", k.key, w),
                 Err(m) if m.starts_with("HARNESS") => {
                     println!("{} (witness {})", m, w);
